@@ -176,6 +176,11 @@ def run(ctx):
     from .. import strmodel
     strmodel.report(ctx, "C07/WIRE-MODEL", strmodel.explore_wire, strmodel.WIRE_LAWS,
                     tp.parts.loc(), 300)
+    # a property value is written folded and read unfolded: long texts of every character
+    # width come back exactly (the physical-line model shared with C06/C09)
+    strmodel.report(ctx, "C07/PHYS-MODEL", strmodel.explore_physical, ["unfold", "whole characters"],
+                    m.own_method("parser.Contentline.to_ical").loc(), 100,
+                    select=lambda law: law in ("unfold", "whole characters"))
 
     # ---- FST-LIST ----------------------------------------------------------
     vc = m.cls("prop.vCategory")
